@@ -671,6 +671,13 @@ def Lim.admits (l : Lim) (count : Int) : Bool :=
   | .mi size => decide (count < size)
   | _ => true
 
+/-- does `TryAcquire` on this wrapper tell the counter (an event)? only a max-in-flight count wrapper does, unless it is
+    degraded, over the limit, or `waitInflight+currentInflight > max` -/
+def GFC.acquireEvent (g : GFC) (inflight : Int) : Bool :=
+  match g with
+  | .miw w => !w.unavail && decide (w.overLimited ≤ 0) && decide (1 + inflight ≤ w.max)
+  | _ => false
+
 /-- a request asks the limiter `GetOrDefault(name)` hands out (`Load` with the construction parameters) -/
 def acquireStep (st : State) (id : Nat) : State :=
   if st.handles.any (·.id == id) then st
@@ -691,9 +698,7 @@ def acquireStep (st : State) (id : Nat) : State :=
       | some g =>
         -- maxInflightWrapper.TryAcquire: every path ends in the inner limiter's TryAcquire; the counter is told
         -- (an event) unless the wrapper is degraded, over the limit, or `waitInflight+currentInflight > max`
-        let ev := match g with
-          | .miw w => !w.unavail && decide (w.overLimited ≤ 0) && decide (1 + st.inflight ≤ w.max)
-          | _ => false
+        let ev := g.acquireEvent st.inflight
         let cnt := if ev then { c.cnt with event := true } else c.cnt
         if g.inner.admits c.fl.remCount then
           { st with lastAdmit := some true, inflight := st.inflight + 1,
@@ -706,6 +711,12 @@ def acquireStep (st : State) (id : Nat) : State :=
 
 /-- `maxinflight` `Release`: the count never goes below zero -/
 def decCount (n : Int) : Int := if n ≤ 0 then n else n - 1
+
+/-- does `Release` on the remote wrapper tell the counter? a max-in-flight count wrapper does (`m.counter(-1)`) -/
+def Cache.releaseEvent (c : Cache) : Bool :=
+  match c.remote.bind (·.fc) with
+  | some (.miw _) => true
+  | _ => false
 
 /-- the request finishes: `Release` on the limiter it kept -/
 def releaseStep (st : State) (id : Nat) : State :=
@@ -729,7 +740,7 @@ def releaseStep (st : State) (id : Nat) : State :=
         -- the remoteWrapper it kept releases into the limiter that is inside the wrapper NOW; a max-in-flight
         -- count wrapper also tells its counter (`m.counter(-1)`)
         if h.gen = c.fl.remOuter ∧ c.remote.isSome then
-          let ev := match c.remote.bind (·.fc) with | some (.miw _) => true | _ => false
+          let ev := c.releaseEvent
           { st with cache := some { c with fl := { c.fl with remCount := decCount c.fl.remCount },
                                            cnt := if ev then { c.cnt with event := true } else c.cnt } }
         else st
